@@ -344,6 +344,35 @@ pub fn battery(root: &N, lang: SupportLang, m: &Material, rng: &mut Rng, share_v
         r[rel] = sub;
         out.push(json!({"rule": r}));
       }
+      // a relation whose sub-rule is a multi-token pattern that binds a variable EARLY and can
+      // still fail LATER, below a pattern that has already written a capture: candidates that fail
+      // after binding must leave nothing behind for the candidate that matches
+      5 | 6 if share_vars && rng.chance(1, 2) => {
+        let kids: Vec<N> = n.children().filter(|c| c.is_named()).collect();
+        if kids.is_empty() || !simple_text(&n.text()) {
+          continue;
+        }
+        let c = rng.pick(&kids);
+        let (ns, cs, ce) = (n.range().start, c.range().start, c.range().end);
+        let t = n.text();
+        let outer = format!("{}$C{}", &t[..cs - ns], &t[ce - ns..]);
+        // the LAST descendant of its kind with at least two named children (earlier ones of the
+        // same kind are tried first and bind `$A` before failing on a later token)
+        let cands: Vec<N> = n.dfs().skip(1).filter(|d| d.children().filter(|k| k.is_named()).count() >= 2 && simple_text(&d.text())).collect();
+        if cands.is_empty() {
+          continue;
+        }
+        let pick = rng.pick(&cands).clone();
+        let d = cands.iter().rev().find(|x| x.kind_id() == pick.kind_id()).unwrap().clone();
+        let first = d.children().find(|k| k.is_named()).unwrap();
+        let (ds, fs, fe) = (d.range().start, first.range().start, first.range().end);
+        let dt = d.text();
+        let inner = format!("{}$A{}", &dt[..fs - ds], &dt[fe - ds..]);
+        let rel = if rng.chance(3, 4) { json!({"has": {"pattern": inner, "stopBy": "end"}}) } else { json!({"has": {"pattern": inner}}) };
+        let mut r = json!({"pattern": outer});
+        merge(&mut r, rel);
+        out.push(json!({"rule": r}));
+      }
       // shared variable: pattern with child i holed, sub-rule mentioning $A again
       _ => {
         let kids: Vec<N> = n.children().filter(|c| c.is_named()).collect();
@@ -393,7 +422,28 @@ pub fn gen_core(m: &Material, rng: &mut Rng, share_vars: bool, depth: usize) -> 
     let n = 1 + rng.below(3);
     let mut utils = serde_json::Map::new();
     for i in 0..n {
-      let r = gen_rule(m, rng, &mut k, depth.min(2));
+      let mut r = gen_rule(m, rng, &mut k, depth.min(2));
+      // a reference to an EARLIER utility from inside a relation, next to another matcher: the
+      // loader's dependency sort does not order the two, so either may be constructed first
+      // (hash order) and the kind cache around the reference must not depend on that
+      if i > 0 && rng.chance(1, 3) {
+        let prev = format!("u{}", rng.below(i));
+        let rel = *rng.pick(&["has", "inside", "follows", "precedes"]);
+        let sub = match rng.below(3) {
+          0 => json!({"all": [{"matches": prev}], "stopBy": "end"}),
+          1 => json!({"any": [{"matches": prev}, gen_atomic(m, rng, &mut k)], "stopBy": "end"}),
+          _ => {
+            let mut a = gen_atomic(m, rng, &mut k);
+            a["matches"] = json!(prev);
+            a["stopBy"] = json!("end");
+            a
+          }
+        };
+        r = json!({ rel: sub });
+        if rng.chance(1, 2) && !m.kinds.is_empty() {
+          r["kind"] = json!(rng.pick(&m.kinds));
+        }
+      }
       utils.insert(format!("u{i}"), r);
       k.utils.push(format!("u{i}"));
     }
@@ -427,6 +477,12 @@ pub fn gen_core(m: &Material, rng: &mut Rng, share_vars: bool, depth: usize) -> 
     core.insert("globals".into(), json!(globals));
   }
   let mut rule = gen_rule(m, rng, &mut k, depth);
+  // use the last local utility from the rule now and then (its own references then matter)
+  if let Some(last) = k.utils.iter().filter(|u| u.starts_with('u')).next_back().cloned() {
+    if rng.chance(1, 4) {
+      rule = json!({"all": [{"matches": last}, rule]});
+    }
+  }
   // a shadowed id is worth using: reference it from the rule itself most of the time
   let shadowed = core.get("globals").and_then(|g| g.as_array()).map(|a| a.iter().any(|g| g["id"] == "u0")).unwrap_or(false);
   if shadowed && rng.chance(3, 4) {
